@@ -9,6 +9,7 @@ import numpy as np
 from hypothesis import strategies as st
 
 from refs import psd_ref as ref
+from vlib import util
 from vlib.core import Part
 
 PROPERTY = "C19"
@@ -528,7 +529,13 @@ def oracle_resample(case, R):
         kw["getfir"] = True
     if layout == "1d" and case["as_list"]:
         data = data.tolist()
+    else:
+        pristine = np.array(data, copy=True)
+        data, lab_ = util.repack(data, case.get("dpack", "same"))
+        R.label("data:" + lab_)
     got = dsp.resample(data, p, q, **kw)
+    if not isinstance(data, list):
+        R.check(np.array_equal(np.asarray(data, dtype=float), pristine), "resample_modifies_its_input")
     nret = 1 + (t is not None) + bool(case["getfir"])
     if nret == 1:
         got = (got,)
@@ -637,7 +644,8 @@ def resamples(draw):
             "axis_neg": draw(st.booleans()), "as_list": draw(st.booleans()),
             "t": draw(st.one_of(st.none(), st.tuples(
                 st.sampled_from([0.0, 100.0, -3.5]), st.sampled_from([1.0, 0.01, 2.5e-4])))),
-            "getfir": draw(st.booleans())}
+            "getfir": draw(st.booleans()),
+            "dpack": draw(st.sampled_from(["same", "same", "int", "fortran", "strided", "readonly"]))}
 
 
 # ====================================================================== fixtime
